@@ -24,6 +24,8 @@ Driver handlers for `StreamDeserializer` over typed item types (`harness/src/sty
   exactly as in the clean run, then ONE terminal item — `IO:<kind>`, or the clean run's item at that call when that is a
   Syntax / Data error — then `None` forever; never `None` before the terminal item.
 
+* `tspfx <cfg> <src> <schema> <calls> <hex> => h_0/…/h_n` (C10) — the history over every prefix; see `tspfx`.
+
 **The post-failure offset of a slice** is not modelled (`Model.StreamTyped`): for `src ≠ reader` the model column echoes
 the crate's offset on the `N` items that follow a failed item, and `judgeSources` judges it.
 -/
@@ -244,6 +246,60 @@ def tsfault : Handler := fun args impl =>
     | _, _, _, _ => bad "decode"
   | _ => bad "arity"
 
-def handlers : List (String × Handler) := [("tstream", tstream), ("tstream3", tstream3), ("tsfault", tsfault)]
+/-- `tspfx <cfg> <src> <schema> <calls> <hex> => h_0/h_1/…/h_n` — the typed stream history over every prefix (C10).
+    Specification, on the crate's histories (the statement of `c10_typed_stream_prefix(_partial)`): let the full input
+    yield `m` leading values; over the prefix of length `k` the items are those values, in order, with the same offsets, up
+    to a first item that differs; that item is `None` with offset `k`, a value with offset `k`, or an error whose position
+    is the end of the prefix and whose category is `eof` (schemas with a float / `Value` site: or `number out of range`). -/
+def tspfx : Handler := fun args impl =>
+  match args with
+  | [c, sr, se, ks, h] =>
+    match srcOfTag sr, Schema.decode se, ks.toNat?, bytesOfHex h with
+    | some src, some s, some calls, some bs =>
+      let env := SJ.Drv.Typed.envOf c src
+      let hs := impl.splitOn "/"
+      let hist (k : Nat) : String :=
+        let p := bs.take k
+        if src == .str && !Spec.Utf8.validUtf8 p then "-"
+        else showHistoryT p "?" src ((hs.getD k "").splitOn ",") (historyT env s calls (start p))
+      let m := String.intercalate "/" ((List.range (bs.length + 1)).map hist)
+      let specs : List String :=
+        if hs.length != bs.length + 1 then ["C10 malformed observation"] else
+        let full := (hs.getD bs.length "").splitOn ","
+        let lead := full.takeWhile (·.startsWith "OK:")
+        let judge (k : Nat) : Option String :=
+          let hk := hs.getD k ""
+          if hk == "-" then none else
+          if hk == "PANIC" then some s!"C10 typed stream over the prefix of length {k}: panic" else
+          let rec firstDiff (xs ys : List String) (j : Nat) : Option (Nat × String) :=
+            match xs, ys with
+            | _, [] => none
+            | [], _ => none
+            | x :: xs', y :: ys' => if x == y then firstDiff xs' ys' (j + 1) else some (j, x)
+          match firstDiff (hk.splitOn ",") lead 0 with
+          | none => none
+          | some (j, x) =>
+            match parseIt x with
+            | none => some s!"C10 typed stream over the prefix of length {k}: malformed item {x}"
+            | some it =>
+              let p := bs.take k
+              if it.isNone && it.off == k then none
+              else if it.isOk && it.off == k then none
+              else if it.isErr && it.idx p == some k then
+                if it.cat == "eof" then none
+                else if Schema.rangeSite s && it.msg == hexOfBytes (Gen.message .NumberOutOfRange) then
+                  some s!"C10 inherent:out-of-range-number-prefix: typed stream over the prefix of length {k}: item {j} is a complete number literal beyond float range (Syntax, not Eof)"
+                else some s!"C10 typed stream over the prefix of length {k}: item {j} fails with {it.cat} at its end (expected eof): {x}"
+              else some s!"C10 typed stream over the prefix of length {k}: item {j} is neither at the cut nor an item of the full stream: {x}"
+        let bad := (List.range bs.length).filterMap judge
+        let inh := bad.filter (·.startsWith "C10 inherent:")
+        let other := bad.filter fun b => !b.startsWith "C10 inherent:"
+        (match other with | [] => [] | b :: _ => [s!"{b} [{other.length} prefix(es)]"]) ++
+        (match inh with | [] => [] | b :: _ => [s!"{b} [{inh.length} prefix(es)]"])
+      { model := m, specs := specs }
+    | _, _, _, _ => bad "decode"
+  | _ => bad "arity"
+
+def handlers : List (String × Handler) := [("tstream", tstream), ("tstream3", tstream3), ("tsfault", tsfault), ("tspfx", tspfx)]
 
 end SJ.Drv.StreamTyped
